@@ -317,6 +317,15 @@ def execute(history):
                     viols.append({"class": "exception-history", "op": opi,
                                   "detail": "%s on the shared object %s, on a fresh object %s" % (kind, (status, pairs if status == "exc" else "returned"), (fstatus, fpairs if fstatus == "exc" else "returned"))})
                 continue
+            # the stored per-candidate distances (k=None or keep_all_distances): whatever is finite must be the true distance
+            if getattr(obj, "distances", None) is not None and len(obj.distances) == n:
+                bump("probe:distances_attribute_checked")
+                for ci, dv in enumerate(obj.distances):
+                    dv = float(dv)
+                    if not math.isinf(dv) and not close(dv, D[ci]):
+                        viols.append({"class": "stored-distances", "op": opi,
+                                      "detail": "%s: stored distance of candidate %d is %r, exhaustive search gives %r" % (kind, ci, dv, D[ci])})
+                        break
             if view is not None and "view" in op:
                 views[op["view"]] = {"view": view, "obj": oi, "k": k, "kind": kind, "reset_gen": resets[oi], "op": opi}
             ctx = "%s(k=%s)" % (kind, k)
